@@ -52,6 +52,29 @@ def enum_parts(t):
     return None
 
 
+def enumerate_is_positional(ex):
+    """in an expanded iterator term: every `enumerate` is applied directly to iter()/iter_mut() of a field
+    (so the index is the element's position); adaptors applied after enumerate may drop elements but keep indices"""
+    ok = [True]
+
+    def strip_into(t):
+        while isinstance(t, tuple) and t and t[0] == "app" and t[1].endswith("IntoIterator::into_iter"):
+            t = t[2][0]
+        return t
+
+    def visit(t):
+        if not isinstance(t, tuple) or not t:
+            return
+        if t[0] == "app" and t[1].endswith("Iterator::enumerate"):
+            inner = strip_into(t[2][0])
+            if not (isinstance(inner, tuple) and inner[0] == "app" and (inner[1].endswith("::iter") or inner[1].endswith("::iter_mut"))):
+                ok[0] = False
+        for x in t:
+            visit(x)
+    visit(ex)
+    return ok[0]
+
+
 def run(chk, F, tier):
     adt = F.adts[STATS]
     fields = [f["name"] for f in adt["variants"][0]["fields"]]
@@ -115,11 +138,14 @@ def run(chk, F, tier):
                 if not ep or ep[0] != "val":
                     continue
                 nx = ep[1]
-                src = fields_in(mir.expand(nx, p), SELF, set())
+                exn = mir.expand(nx, p)
+                src = fields_in(exn, SELF, set())
                 if len(src) != 1:
                     chk.bad("S2.update", "loop:" + mir.fmt(key)[:40], "cannot attribute loop store to one field: %s" % sorted(src))
                     continue
                 f = list(src)[0]
+                if not enumerate_is_positional(exn):
+                    chk.bad("S2.update", f + ":enumerate", "update_many: the index used for %s is not the element's position (enumerate is not applied directly to the array iterator)" % f)
                 if f in seen:
                     continue
                 seen.add(f)
@@ -204,7 +230,10 @@ def run(chk, F, tier):
                 key = "pair:%s" % f
             else:
                 ep = enum_parts(best)
-                src = fields_in(mir.expand(ep[1], p), SELF, set()) if ep and ep[0] == "val" else set()
+                exn = mir.expand(ep[1], p) if ep and ep[0] == "val" else None
+                src = fields_in(exn, SELF, set()) if exn is not None else set()
+                if exn is not None and not enumerate_is_positional(exn):
+                    chk.bad("S3.best", "enumerate:%s" % sorted(src), "best_code: the index used for %s is not the element's position (enumerate is not applied directly to the array iterator), so the reported parameter is shifted" % sorted(src))
                 f = list(src)[0] if len(src) == 1 else "?"
                 ok = False
                 if f in FIELD and FIELD[f][1] == var and code[4]:
